@@ -148,6 +148,9 @@ def items(tier, seed):
     for v in ("exact", "plus1"):
         out.append(("obs", "none", n, [v]))
         out.append(("obs", "targets", n, [v]))
+    # stored observations must also reach the filter when realtime observation is ON (they join the step's own)
+    out.append(("obs_rt", "none", n, ["exact"]))
+    out.append(("obs_rt", "targets", n, ["plus1"]))
     return out
 
 
@@ -257,11 +260,18 @@ def _run_obs(res, item, tmp):
         _, keep, gap = variants[name]
         path = os.path.join(tmp, f"imp_obs_{name}.sqlite3")
         _derive(src, path, keep, gap)
+        if item[0] == "obs_rt":
+            # tag the stored observations so they are distinguishable from the identical ones the run makes itself
+            con = sqlite3.connect(path)
+            con.execute("UPDATE observations SET elevation_rad = elevation_rad + 1e-4")
+            con.commit()
+            con.close()
         _, obs = _db_rows(path)
         n_obs_total = sum(len(v) for v in obs.values())
         sha0, dump0 = _sha(path), _logical_dump(path)
-        cfg = _importer_config(n, mix, realtime_obs=False, truth_only=False)
-        case = {"mix": mix, "db": name, "steps": n, "stored_observations": n_obs_total}
+        realtime = item[0] == "obs_rt"
+        cfg = _importer_config(n, mix, realtime_obs=realtime, truth_only=False)
+        case = {"mix": mix, "db": name, "steps": n, "stored_observations": n_obs_total, "realtime_observation": realtime}
         sc = scen.build(cfg, importer_db_path=f"sqlite:///{path}")
         err = None
         for k in range(1, n + 1):
@@ -284,6 +294,11 @@ def _run_obs(res, item, tmp):
             for tid in TARGETS:
                 want = sorted(obs.get((iso, tid), []))
                 got = subs.get(tid, [])
+                if realtime:
+                    # the step's own observations are there too: every stored one must be among them, exactly once,
+                    # and none stored for another epoch or target
+                    stored_all = {o for v in obs.values() for o in v}
+                    got = sorted(o for o in got if o in stored_all)
                 res.case(
                     "obs/reach_filter_at_epoch",
                     {**case, "step": k, "target": tid, "n_stored": len(want)},
@@ -347,7 +362,7 @@ def run_item(item):
     try:
         if item[0] == "ephem":
             _run_ephem(res, item, tmp)
-        elif item[0] == "obs":
+        elif item[0] in ("obs", "obs_rt"):
             _run_obs(res, item, tmp)
             _check_write_api(res, tmp)
         elif item[0] == "api":
